@@ -89,6 +89,72 @@ def gen_value(rng, dt, nullable, null_p=.2):
     raise TypeError(dt)
 
 
+def inject(rng, dt, v, mode):
+    """corrupt one position INSIDE a nested value (array element, map value, nested struct field): a null where the
+    type says non-nullable, an out-of-range integer, or a value of the wrong class. Returns (value, done)."""
+    t = T()
+    if v is None:
+        return v, False
+    if isinstance(dt, t.ArrayType) and isinstance(v, list) and v:
+        i = rng.randrange(len(v))
+        if mode == 'null' and not dt.containsNull and not isinstance(dt.elementType, t.NullType) and rng.random() < .7:
+            return v[:i] + [None] + v[i + 1:], True
+        nv, done = inject(rng, dt.elementType, v[i], mode)
+        return v[:i] + [nv] + v[i + 1:], done
+    if isinstance(dt, t.MapType) and isinstance(v, dict) and v:
+        k = rng.choice(list(v))
+        if mode == 'null' and not dt.valueContainsNull and not isinstance(dt.valueType, t.NullType) and rng.random() < .7:
+            return dict(v, **{k: None}) if isinstance(k, str) else {**v, k: None}, True
+        nv, done = inject(rng, dt.valueType, v[k], mode)
+        return {**v, k: nv}, done
+    if isinstance(dt, t.StructType) and isinstance(v, tuple) and len(v):
+        idxs = list(range(len(dt.fields)))
+        rng.shuffle(idxs)
+        vals = list(v)
+        for i in idxs:
+            f = dt.fields[i]
+            if mode == 'null' and not f.nullable and not isinstance(f.dataType, t.NullType):
+                vals[i] = None
+                return t.Row(*dt.names)(*vals), True
+            nv, done = inject(rng, f.dataType, vals[i], mode)
+            if done:
+                vals[i] = nv
+                return t.Row(*dt.names)(*vals), True
+        return v, False
+    if mode == 'range' and isinstance(dt, (t.ByteType, t.ShortType, t.IntegerType, t.LongType)):
+        b = RANGES[dt.typeName()]
+        return rng.choice([2 ** b, -(2 ** b) - 1]), True
+    if mode == 'type' and isinstance(dt, (t.BooleanType, t.LongType, t.IntegerType, t.DoubleType, t.DateType, t.TimestampType, t.BinaryType)):
+        return 'text', True
+    return v, False
+
+
+def gen_deep_type(rng, depth):
+    """nested types that mostly forbid nulls inside, over every atom class (strings included)"""
+    t = T()
+    nn = rng.random() < .3          # nulls allowed at this level?
+    if depth <= 0 or rng.random() < .3:
+        return atom(rng.choice(['string', 'string', 'long', 'integer', 'short', 'boolean', 'double', 'date', 'binary']))
+    r = rng.random()
+    if r < .45:
+        return t.ArrayType(gen_deep_type(rng, depth - 1), nn)
+    if r < .75:
+        return t.MapType(atom(rng.choice(['string', 'long'])), gen_deep_type(rng, depth - 1), nn)
+    return t.StructType([t.StructField(n, gen_deep_type(rng, depth - 1), rng.random() < .3)
+                         for n in rng.sample(['a', 'b', 'c', 'x y'], rng.randint(1, 3))])
+
+
+def gen_deep_struct(rng):
+    t = T()
+    fields = []
+    for n in rng.sample(['a', 'b', 'c', 'id'], rng.randint(1, 3)):
+        dt = gen_deep_type(rng, 2)
+        while not isinstance(dt, (t.ArrayType, t.MapType, t.StructType)):
+            dt = gen_deep_type(rng, 2)
+        fields.append(t.StructField(n, dt, rng.random() < .3))
+    return t.StructType(fields)
+
+
 def _hashable(v):
     return v
 
@@ -170,7 +236,8 @@ class C19(Prop):
         return {'kind': 'row', 'seed': rng.getrandbits(40)}
 
     def fixed_cases(self, tier):
-        return [{'kind': k, 'seed': s} for k in ('json', 'infer', 'verify', 'row') for s in range(12)]
+        sweep = [{'kind': 'nullsweep', 'seed': 0, 'atom': a, 'shape': sh} for a in ATOMS for sh in range(6)]
+        return sweep + [{'kind': k, 'seed': s} for k in ('json', 'infer', 'verify', 'row') for s in range(12)]
 
     def nontrivial(self, case):
         return True
@@ -235,12 +302,60 @@ class C19(Prop):
                 return Mismatch('createDataFrame followed by collect does not return rows equal to the input', [pv(r) for r in back],
                                 [pv(r) for r in rows], 'C19:create:roundtrip', relation='spec')
             return None
+        if kind == 'nullsweep':
+            # every atom class x every way of nesting it where nulls are forbidden: a null there must be rejected,
+            # the same value without the null accepted
+            a = atom(case['atom'])
+            ok = gen_value(rng, a, False)
+            shapes = [
+                (t.ArrayType(a, False), [ok, None], [ok, ok]),
+                (t.MapType(atom('string'), a, False), {'k': ok, 'j': None}, {'k': ok}),
+                (t.StructType([t.StructField('a', a, False)]), t.Row('a')(None), t.Row('a')(ok)),
+                (t.ArrayType(t.ArrayType(a, False), False), [[ok], [None]], [[ok], []]),
+                (t.MapType(atom('string'), t.ArrayType(a, False), True), {'k': None, 'j': [ok, None, ok]}, {'k': None, 'j': [ok]}),
+                (t.ArrayType(t.StructType([t.StructField('a', a, False), t.StructField('b', a, True)]), False),
+                 [t.Row('a', 'b')(ok, None), t.Row('a', 'b')(None, ok)], [t.Row('a', 'b')(ok, None)]),
+            ]
+            dt, badv, goodv = shapes[case['shape']]
+            st = t.StructType([t.StructField('f', dt, False)])
+            ctx.note('nullsweep:%d' % case['shape'])
+            for v, should in ((badv, 'ValueError'), (goodv, None)):
+                row = t.Row('f')(v)
+                mv = ask({'p': 'C19', 'op': 'verify', 'type': json.loads(st.json()), 'nullable': False, 'value': pv(row)})['model']
+                want = {None: None, 'wrongType': 'TypeError', 'outOfRange': 'ValueError', 'nullability': 'ValueError', 'length': 'ValueError'}[mv]
+                if want != should:
+                    return Mismatch('Lean: verify model disagrees with the null sweep', mv, should, 'model-spec')
+                try:
+                    t._make_type_verifier(st)(row)
+                    got = None
+                except Exception as e:  # pylint: disable=broad-except
+                    got = type(e).__name__
+                if got != should:
+                    return Mismatch('verification of a null inside %s (nulls forbidden there)' % dt.simpleString(), got, should,
+                                    'C19:verify:nullsweep', relation='spec')
+            return None
         if kind == 'verify':
             st = gen_struct(rng, 2)
             row = gen_value(rng, st, False)
-            corrupt = rng.choice([None, None, 'type', 'range', 'null', 'length'])
+            corrupt = rng.choice([None, None, 'type', 'range', 'null', 'length', 'deep', 'deep', 'deep'])
             want_cls = None
-            if corrupt:
+            if corrupt == 'deep':
+                st = gen_deep_struct(rng) if rng.random() < .7 else gen_struct(rng, 3)
+                row = gen_value(rng, st, False, null_p=.05)
+                mode = rng.choice(['null', 'null', 'range', 'type'])
+                vals = list(row)
+                idxs = list(range(len(vals)))
+                rng.shuffle(idxs)
+                corrupt = None
+                for i in idxs:
+                    if isinstance(st.fields[i].dataType, (t.ArrayType, t.MapType, t.StructType)):
+                        nv, done = inject(rng, st.fields[i].dataType, vals[i], mode)
+                        if done:
+                            vals[i] = nv
+                            row = t.Row(*st.names)(*vals)
+                            corrupt = 'deep-' + mode
+                            break
+            elif corrupt:
                 vals = list(row)
                 idxs = list(range(len(vals)))
                 rng.shuffle(idxs)
